@@ -2,11 +2,13 @@ package checks
 
 import (
 	"bytes"
+	stdelliptic "crypto/elliptic"
 	"errors"
 	"fmt"
 	"math/big"
 
 	"github.com/wollac/iota-crypto-demo/pkg/slip10"
+	"github.com/wollac/iota-crypto-demo/pkg/slip10/btccurve"
 	slipelliptic "github.com/wollac/iota-crypto-demo/pkg/slip10/elliptic"
 
 	"verifharness/core"
@@ -14,7 +16,7 @@ import (
 )
 
 func init() {
-	core.Register(core.Check{ID: "C08", Level: "exploration", Run: func(c *core.Ctx) { runC08(c); historyPass(c, "C08"); reentrancyPass(c, "C08") }})
+	core.Register(core.Check{ID: "C08", Level: "exploration", Run: func(c *core.Ctx) { runC08(c); historyPass(c, "C08"); reentrancyPass(c, "C08"); arch386Pass(c, "C08") }})
 }
 
 type c08curve struct {
@@ -28,6 +30,14 @@ func c08Curves() []c08curve {
 		{"secp256k1", slipelliptic.Secp256k1(), rs.Secp256k1()},
 		{"nist256p1", slipelliptic.Nist256p1(), rs.Nist256p1()},
 	}
+}
+
+// c08RawCurves: every exported curve object a caller can put into the Curve field of a key of the named curve.
+func c08RawCurves(name string) map[string]stdelliptic.Curve {
+	if name == "nist256p1" {
+		return map[string]stdelliptic.Curve{"crypto/elliptic.P256()": stdelliptic.P256(), "P256().Params() (generic arithmetic)": stdelliptic.P256().Params()}
+	}
+	return map[string]stdelliptic.Curve{"btccurve.Secp256k1()": btccurve.Secp256k1(), "btccurve.Secp256k1().Params() (generic arithmetic is only valid for a=-3; skipped)": nil}
 }
 
 func be32(v *big.Int) []byte { return v.FillBytes(make([]byte, 32)) }
@@ -154,6 +164,36 @@ func runC08(c *core.Ctx) {
 					c.Violate(key+"/receiver-modified", "Shift modified the receiver", cas, gt, nil)
 				}
 			}
+			// the same pair on keys the CALLER assembled from the exported fields, with every curve object that denotes this
+			// curve (the package's own wrapper is only one of them): same specification, same results
+			pk, _ := pub.(*slipelliptic.PublicKey)
+			if pk == nil {
+				return
+			}
+			for rname, raw := range c08RawCurves(cv.name) {
+				if raw == nil {
+					continue
+				}
+				privR := &slipelliptic.PrivateKey{K: new(big.Int).Set(k), Curve: raw}
+				pubR := &slipelliptic.PublicKey{X: new(big.Int).Set(pk.X), Y: new(big.Int).Set(pk.Y), Curve: raw}
+				var a2, b2, p2 slip10.Key
+				var ea2, eb2 error
+				if p := core.Catch(func() { a2, ea2 = privR.Shift(append([]byte{}, sb...)); b2, eb2 = pubR.Shift(append([]byte{}, sb...)); p2 = privR.Public() }); p != nil {
+					c.Violate(key+"/caller-built-key/panic", fmt.Sprintf("keys built with Curve: %s: %v", rname, p), cas, gt, nil)
+					continue
+				}
+				c.Eval(1)
+				if !bytes.Equal(p2.Bytes(), cv.ref.Pub(kb)) {
+					c.Violate(key+"/caller-built-key/public-wrong", fmt.Sprintf("PrivateKey{K, Curve: %s}.Public() = %x, want %x", rname, p2.Bytes(), cv.ref.Pub(kb)), cas, gt, nil)
+				}
+				if (ea2 == nil) != wok || (eb2 == nil) != wok {
+					c.Violate(key+"/caller-built-key/validity", fmt.Sprintf("keys built with Curve: %s: private Shift err=%v, public Shift err=%v, SLIP-0010 says valid=%v", rname, ea2, eb2, wok), cas, gt, nil)
+					continue
+				}
+				if wok && (!bytes.Equal(a2.Bytes(), wantPriv) || !bytes.Equal(b2.Bytes(), wantPub) || !bytes.Equal(a2.Public().Bytes(), wantPub)) {
+					c.Violate(key+"/caller-built-key/wrong", fmt.Sprintf("keys built with Curve: %s: shifted keys %x / %x, reference %x / %x", rname, a2.Bytes(), b2.Bytes(), wantPriv, wantPub), cas, gt, nil)
+				}
+			}
 		})
 		nontriv += int64(len(jobs))
 		c.Sample(map[string]interface{}{"curve": cv.name, "scalar": "5", "shift": "n-5", "expect": "both invalid"})
@@ -165,7 +205,7 @@ func runC08(c *core.Ctx) {
 		}
 		var idxs []uint32
 		for i := 0; i < span; i++ {
-			idxs = append(idxs, uint32(i), uint32(1<<31-span+i))
+			idxs = append(idxs, uint32(i), uint32(1<<31)-uint32(span)+uint32(i))
 		}
 		seeds := [][]byte{bytes.Repeat([]byte{0}, 16), bytes.Repeat([]byte{0xFF}, 16), []byte("0123456789abcdef"), {1}}
 		type parent struct {
@@ -188,6 +228,19 @@ func runC08(c *core.Ctx) {
 				if err == nil {
 					parents = append(parents, parent{ch, rch, fmt.Sprintf("seed%d:m/7H", si)})
 				}
+			}
+		}
+		// extended keys the caller restored from stored material (exported fields, raw curve objects, the chain code and
+		// the key as windows of one larger buffer)
+		for si, sd := range seeds[:2] {
+			rm := rs.Master(cv.ref, sd)
+			for rname, raw := range c08RawCurves(cv.name) {
+				if raw == nil {
+					continue
+				}
+				blob := append(append(append([]byte{0xEE}, rm.Priv...), rm.Chain...), 0xEE, 0xEE, 0xEE, 0xEE, 0xEE, 0xEE, 0xEE, 0xEE)
+				ek := &slip10.ExtendedKey{ChainCode: blob[33:65], Key: &slipelliptic.PrivateKey{K: new(big.Int).SetBytes(blob[1:33]), Curve: raw}}
+				parents = append(parents, parent{ek, rs.Node{Priv: rm.Priv, Pub: rm.Pub, Chain: rm.Chain}, fmt.Sprintf("seed%d:m restored by the caller with Curve: %s", si, rname)})
 			}
 		}
 		type ej struct {
